@@ -499,6 +499,63 @@ func (rpc *RPC) split(limit int) iter.Seq[RPC] {
 					}
 				}
 			}
+
+			for _, idontwant := range ctl.GetIdontwant() {
+				if len(nextRPC.Control.Idontwant) == 0 {
+					// As for IWANTs, a single IDONTWANT per RPC is enough.
+					newIDontWant := &pb.ControlIDontWant{}
+					if nextRPC.Control.Idontwant = append(nextRPC.Control.Idontwant, newIDontWant); nextRPC.Size() > limit {
+						nextRPC.Control.Idontwant = nextRPC.Control.Idontwant[:len(nextRPC.Control.Idontwant)-1]
+						if !yield(nextRPC) {
+							return
+						}
+						nextRPC = RPC{RPC: pb.RPC{Control: &pb.ControlMessage{
+							Idontwant: []*pb.ControlIDontWant{newIDontWant},
+						}}, from: rpc.from}
+					}
+				}
+				for _, msgID := range idontwant.GetMessageIDs() {
+					if nextRPC.Control.Idontwant[0].MessageIDs = append(nextRPC.Control.Idontwant[0].MessageIDs, msgID); nextRPC.Size() > limit {
+						nextRPC.Control.Idontwant[0].MessageIDs = nextRPC.Control.Idontwant[0].MessageIDs[:len(nextRPC.Control.Idontwant[0].MessageIDs)-1]
+						if !yield(nextRPC) {
+							return
+						}
+						nextRPC = RPC{RPC: pb.RPC{Control: &pb.ControlMessage{
+							Idontwant: []*pb.ControlIDontWant{{MessageIDs: []string{msgID}}},
+						}}, from: rpc.from}
+					}
+				}
+			}
+
+			if ext := ctl.GetExtensions(); ext != nil {
+				if nextRPC.Control.Extensions = ext; nextRPC.Size() > limit {
+					nextRPC.Control.Extensions = nil
+					if !yield(nextRPC) {
+						return
+					}
+					nextRPC = RPC{RPC: pb.RPC{Control: &pb.ControlMessage{Extensions: ext}}, from: rpc.from}
+				}
+			}
+		}
+
+		// The extension fields of the RPC itself are indivisible
+		if rpc.Partial != nil {
+			if nextRPC.Partial = rpc.Partial; nextRPC.Size() > limit {
+				nextRPC.Partial = nil
+				if !yield(nextRPC) {
+					return
+				}
+				nextRPC = RPC{RPC: pb.RPC{Partial: rpc.Partial}, from: rpc.from}
+			}
+		}
+		if rpc.TestExtension != nil {
+			if nextRPC.TestExtension = rpc.TestExtension; nextRPC.Size() > limit {
+				nextRPC.TestExtension = nil
+				if !yield(nextRPC) {
+					return
+				}
+				nextRPC = RPC{RPC: pb.RPC{TestExtension: rpc.TestExtension}, from: rpc.from}
+			}
 		}
 
 		if nextRPC.Size() > 0 {
